@@ -337,11 +337,40 @@ def hdl21_naming_encoder(obj: Any) -> Any:
     # Dataclasses also require custom handling, as the default encoder deep-copies them,
     # often invoking methods not supported on several Hdl21 types.
     # Convert to (shallow) dictionaries instead.
+    if isinstance(obj, _Tagged):
+        return [obj.tag, obj.value]
+
     if dataclasses.is_dataclass(obj):
-        return {f.name: getattr(obj, f.name) for f in dataclasses.fields(obj)}
+        declared = getattr(obj, "__params__", {})
+        return {
+            f.name: _tagged(getattr(obj, f.name), declared.get(f.name, None))
+            for f in dataclasses.fields(obj)
+        }
 
     # Not an Hdl21 type. Hand off to pydantic.
     return pydantic_json_encoder(obj)
+
+
+@dataclasses.dataclass
+class _Tagged:
+    """A parameter value together with the name of its class."""
+
+    tag: str
+    value: Any
+
+
+def _tagged(value: Any, param: Optional[Param]) -> Any:
+    """Where a field's declared type leaves open which class its value has - a `Union` or `Any` -
+    two unequal values can serialize alike: instances of two param-classes with equal fields,
+    or an `Enum` member and its plain value. Name these by their class too."""
+    import enum
+
+    if not (isparamclass(value) or isinstance(value, enum.Enum)):
+        return value
+    if param is not None and param.dtype in (type(value), Optional[type(value)]):
+        return value
+    cls = type(value)
+    return _Tagged(tag=f"{cls.__module__}.{cls.__qualname__}", value=value)
 
 
 # Shortcut for parameter-less generators.
